@@ -401,3 +401,67 @@ Fixpoint str_ltb (a b : str) : bool :=
   | x :: a', y :: b' => if x <? y then true else if y <? x then false else str_ltb a' b'
   end.
 Definition json_items_lt (a b : jv) : bool := str_ltb (jtext a) (jtext b).
+
+(* ------------------------------------------------------------------ PostgreSQL:  expr #> '{a,"b c",0}'   (documented semantics, not executed).
+   The right operand is a text[] literal.  Array-literal syntax (PostgreSQL manual, 8.15.2 / 8.15.6): elements are separated by commas
+   inside braces; an element is either double-quoted -- then a backslash makes the next character literal -- or unquoted, and an unquoted
+   element spelled NULL in any letter case is the NULL element.  #> then walks the document: a text element is an object key, or, for
+   an array, the decimal text of an index (negative: from the end).  No whitespace is generated, so whitespace rules are not modelled. *)
+Inductive pgelem := PText (s : str) | PNull.
+
+Definition lower (c : Z) : Z := if (65 <=? c) && (c <=? 90) then c + 32 else c.
+Definition is_null_word (s : str) : bool := str_eqb (map lower s) t_null.
+
+Definition pg_plain (c : Z) : bool :=
+  negb ((c =? c_comma) || (c =? c_rbrace) || (c =? c_lbrace) || (c =? c_quote) || (c =? c_bslash)).
+
+(* body of a quoted element, after the opening quote: the text and what follows the closing quote *)
+Fixpoint pg_quoted (s : str) : option (str * str) :=
+  match s with
+  | [] => None
+  | c :: r =>
+      if c =? c_quote then Some ([], r)
+      else if c =? c_bslash then
+        match r with
+        | x :: r' => match pg_quoted r' with Some (t, rest) => Some (x :: t, rest) | None => None end
+        | [] => None
+        end
+      else match pg_quoted r with Some (t, rest) => Some (c :: t, rest) | None => None end
+  end.
+
+Fixpoint pg_elems (fuel : nat) (s : str) : option (list pgelem) :=
+  match fuel with
+  | O => None
+  | S f =>
+      let after (e : pgelem) (rest : str) : option (list pgelem) :=
+        match rest with
+        | c :: r => if c =? c_comma then match pg_elems f r with Some es => Some (e :: es) | None => None end
+                    else if c =? c_rbrace then match r with [] => Some [e] | _ => None end
+                    else None
+        | [] => None
+        end in
+      match s with
+      | c :: r =>
+          if c =? c_quote then match pg_quoted r with Some (t, rest) => after (PText t) rest | None => None end
+          else let '(w, rest) := span pg_plain s in
+               match w with
+               | [] => None
+               | _ => after (if is_null_word w then PNull else PText w) rest
+               end
+      | [] => None
+      end
+  end.
+
+Definition pg_array (s : str) : option (list pgelem) :=
+  match s with
+  | c :: r => if c =? c_lbrace then
+                match r with
+                | [c2] => if c2 =? c_rbrace then Some [] else pg_elems (length r) r
+                | _ => pg_elems (length r) r
+                end
+              else None
+  | [] => None
+  end.
+
+(* what each step of the Python path must arrive as *)
+Definition pg_key_text (k : pkey) : str := match k with KIdx i => fmt_d i | KKey s => s end.
